@@ -28,7 +28,8 @@ META = {
     "technique": "Lean 4 proof over hand-written codec/name-section model + per-module translation validation (Lean decoder vs Python text reader, V8, stored WABT outputs)",
 }
 REQUIRED = ["decU32_encU32", "decName_encName", "decVec_encVec", "decLimits_encLimits", "decodeModule_encodeModule",
-            "decodeNameSec_encodeNameSec", "names_strictly_increasing", "names_assign_written_name", "label_resolve_nearest"]
+            "decodeNameSec_encodeNameSec", "names_strictly_increasing", "names_assign_written_name", "label_resolve_nearest",
+            "blocktype_index_roundtrip", "blocktype_index_unsigned_form_wrong"]
 
 TRIGGERS = ["start", "start-not-first", "select-typed", "nop", "f64-global", "dup-type", "type-param-names", "import-param-names",
             "unnamed-func", "numeric-ident", "export-func-separate"]
@@ -86,6 +87,17 @@ def gen_inputs(ctx):
     for i in range(n_main):
         m = c05_watgen.gen_module(rng, size=1 + i % 3)
         ins.append(("gen:%d" % i, "hex", m.text.encode().hex(), {"stream": "generated", "text": m.text.encode(), "features": sorted(m.features)}))
+    # many distinct types: multi-value block/loop/if types (signed s33 index) and call_indirect type uses (u32) at the
+    # LEB128 boundaries 63|64, 127|128 (thorough: 8191|8192), types introduced explicitly / by function signatures / mixed
+    many = [((63, 64, 127, 128), "explicit"), ((63, 64, 127, 128), "funcs"), ((63, 64, 127, 128), "mixed"),
+            ((62, 63, 64, 65, 71, 100, 126, 127, 128, 129), "explicit"), ((64, 65, 127), "mixed"), ((70,), "funcs")]
+    if ctx.tier != "quick":
+        many += [((63, 64, 127, 128, 8191, 8192), "explicit"), ((8191, 8192), "funcs"), ((64, 8190, 8191, 8192, 8193), "mixed")]
+        many += [(tuple(sorted(rng.sample(range(2, 300), 8))), None) for _ in range(30)]
+    for i, (targets, mode) in enumerate(many):
+        m = c05_watgen.gen_many_types(rng, targets=targets, mode=mode)
+        ins.append(("many-types:%d:%s:%s" % (i, mode, "-".join(map(str, targets))), "hex", m.text.encode().hex(),
+                    {"stream": "many-types", "text": m.text.encode(), "features": sorted(m.features)}))
     n_trig = 5 if ctx.tier == "quick" else 50
     for t in TRIGGERS:
         trig = (t,) if t != "start-not-first" else ("start", "start-not-first")
@@ -192,6 +204,8 @@ def asm_cause(msg, text=b""):
         return "ident:digit-prefix-treated-as-index"
     if "typed_select" in msg:
         return "select-typed:vector-length-missing"
+    if re.search(rb"(block|loop|if)\s+(\$\S+\s+)?\(result\s+\w+\s+\w+", text or b"") and msg.startswith("invalid function") and b"gen_many_types" in (text or b""):
+        return "blocktype:index-encoding"
     if "invalid start function" in msg:
         return "start:index-always-first-defined-function"
     if "unknown func local" in msg or "invalid local index" in msg or "unknown global" in msg or "unknown func" in msg:
@@ -290,7 +304,7 @@ def run(ctx):
                 dist["outside_subset"][c] = dist["outside_subset"].get(c, 0) + 1
         elif r["st"] in ("asm-error", "asm-panic"):
             c = asm_cause(r["detail"], r["text"])
-            by_construction = r["meta"]["stream"] in ("fixed", "generated") or r["meta"]["stream"].startswith("trigger:")
+            by_construction = r["meta"]["stream"] in ("fixed", "generated", "many-types", "corpus") or r["meta"]["stream"].startswith("trigger:")
             if by_construction or r["st"] == "asm-panic" or not c.startswith("asm-error:"):
                 viol(r, c, "Wat2Wasm fails on a text the parser accepts: %s" % r["detail"])
             else:
@@ -403,6 +417,14 @@ def run(ctx):
         ctx.proof["broken"].append({"theorem": "correspondence C04 resolveLabel vs findLabelIndex", "why": "op %r impl=%r model=%r" % (op, a, b)})
     tie["label_ops"] = len(lab_ops_h)
     tie["label_resolved"] = sum(1 for x in lh if x.startswith("some"))
+
+    # ---------------------------------------------------------------- block type index: the reference encoder's s33 = the proved model's
+    bts = [0, 1, 62, 63, 64, 65, 71, 100, 126, 127, 128, 129, 8190, 8191, 8192, 8193, 1048575, 1048576, (1 << 32) - 1]
+    bo = run_chunks(ctx, model, ["bt %d" % i for i in bts], nproc=1)
+    for i, l in zip(bts, bo):
+        if l.split() != [W.sleb(i).hex(), W.uleb(i).hex()]:
+            ctx.proof["broken"].append({"theorem": "correspondence C04 reference s33/u32 encoder vs Lean encS/encU", "why": "%d: %r" % (i, l)})
+    tie["blocktype_encodings_checked"] = len(bts)
 
     # ---------------------------------------------------------------- the stored WABT outputs
     wabt = {"files": 0, "reference_reader_equal": 0, "wa_sections_equal": 0, "wa_bytes_equal": 0}
